@@ -6,6 +6,7 @@ PROP = "C11"
 THEOREM_FILE = "Props/C11.v"
 EXTRA_THEOREM_FILES = ["Props/C11_src.v"]     # source tie: translated source = model (DESIGN 5.1b)
 EXTRA_THEOREM_FILES.append("Props/C11_src_subnet.v")     # (SRCE) source tie of subnet / next / previous / iter_hosts
+EXTRA_THEOREM_FILES.append("Props/C11_code.v")     # (CODA) code-level theorems: the property about the regenerated definitions
 RULE = ("networks: every prefix 0..width of both families (quick: all IPv4 prefixes, a boundary-heavy sample of IPv6 "
         "prefixes) x {lowest block, highest block, random mid-space block} with host bits {0, 1, size-1, random}; "
         "subnet: every target prefix p..p+8 x counts {None,0,1,2,3,max-1,max,max+1,-1} fully exhausted, targets below p "
